@@ -39,3 +39,5 @@ def run(rep, tier):
                       select=lambda f: f['rule'] in ('S-literal', 'S-literal-end', 'S-skip-restart', 'S-flow',
                                                      'G1-no-trace', 'G2-as-sound', 'G2-cp-sound', 'G3-protocol'))
     rep.floor('configurations of Skip', total.get('Skip', 0), 78)
+    from .. import controls
+    controls.e1_controls(rep)
